@@ -1151,13 +1151,14 @@ ASSUMPTIONS = [
     "within 1e-6; floating-point rounding of the reward sums is not modelled)",
     "example-modelled: a call that raised ends the history; what it left of the object is neither dumped nor judged",
     "example-modelled: ReachTheTargetSim is modelled (Model/Reach.lean); proved: WInvWeak of every reachable world, "
-    "observations in the declared space; `stepMustNotRaise => step returns` is proved for steps that start in a WInv "
-    "world and judged at run time otherwise; its two KeyError branches for in-space actions (findings R1, R2) were "
+    "observations in the declared space, `stepMustNotRaise => step returns` for every reachable state, and RT.specRT on "
+    "the model's trace of every history (reach_hist); its two KeyError branches for in-space actions (findings R1, R2) were "
     "repaired in the repo and the model follows; multi_agent_sim.py is not modelled",
     "example-modelled: PacmanSim / PacmanSimSimple are modelled (Model/Pacman.lean) with the exact state a raising step leaves; "
     "proved: Lawful/WF (C01, C07), reset establishes WInv from anything and forgets (C03, C08), static part and legal vitals in "
-    "every reachable state; the cell structure (WInvFloat), `stepPre => step returns and leaves WInv` and observation membership "
-    "are judged at run time (PM.specPM); reward schemes are compared in units of 1/100 (values that are multiples of 0.01)",
+    "every reachable state, the cell structure (WInvFloat), `stepPre => step returns and leaves WInv`, observation membership "
+    "and PM.specPM on the model's trace of every history (pacman_hist); reward schemes are compared in units of 1/100 (values "
+    "that are multiples of 0.01)",
     "example-modelled: BroadcastSim (comms_blocking.py) is modelled with exact rationals; the real float64 messages are "
     "tied per call (the model is run from the implementation's previous dump, a message is accepted within 2^-40 of the "
     "exact number; float32 observation entries are compared with numpy's float32 rounding of the stored numbers in the "
